@@ -1,6 +1,7 @@
 package main
 
 import (
+	"reflect"
 	"fmt"
 	"go/constant"
 	"go/token"
@@ -360,6 +361,7 @@ func c09(c *Ctx) {
 		r.Und("C09.R1", "converter", "", "no function in package arg calls reflect.Zero: converter not found")
 	}
 	casters := checkSizeGuards(p, r, "C09.R3", convs)
+	c09Boxing(p, r, convs)
 	// R6: the retyping helper swaps only the type word: data pointer and flag word of the original value are kept
 	for _, cf := range casters {
 		okShape := false
@@ -843,6 +845,69 @@ func checkSizeGuards(p *Prog, r *Report, rule string, convs []*ssa.Function) []*
 				}
 			}
 			walk(cs.Instr.Block(), 0)
+			// the stand-in path is entered only for a non-nil value whose type differs from the declared type and whose
+			// declared type is a struct or a pointer: on every edge into the block that compares the sizes
+			var sizeIf *ssa.If
+			for _, g := range guardsAt(cs.Instr.Block()) {
+				if _, ok := isSizeCompare(g.Cond); ok && g.If != nil {
+					sizeIf = g.If
+				}
+			}
+			if sizeIf != nil {
+				// the block where the selection has been made: walk up from the size test through blocks that only compute
+				sel := sizeIf.Block()
+				missing := ""
+				for _, pr := range sel.Preds {
+					gs := knownAtEdge(pr, sel)
+					var nonNil, typeDiffers, kindOK bool
+					for _, g := range gs {
+						bo, isB := g.Cond.(*ssa.BinOp)
+						if !isB {
+							continue
+						}
+						if (bo.Op == token.NEQ && g.Pol) || (bo.Op == token.EQL && !g.Pol) {
+							if isNilConst(bo.X) || isNilConst(bo.Y) {
+								nonNil = true
+							}
+							if strings.HasSuffix(bo.X.Type().String(), "reflect.Type") && strings.HasSuffix(bo.Y.Type().String(), "reflect.Type") {
+								typeDiffers = true
+							}
+						}
+						if kc, kv, isK := kindTest(g.Cond); isK && g.Pol && (kc == int64(reflect.Struct) || kc == int64(reflect.Ptr)) {
+							if kcall, isCall := resolveLocal(kv).(*ssa.Call); isCall && kcall.Call.IsInvoke() {
+								kindOK = true
+							}
+						}
+					}
+					// a membership test (table of kinds / predicate function) over a subset of {Struct, Ptr}
+					for _, g := range gs {
+						if !g.Pol {
+							continue
+						}
+						if ks := kindPredicate(g.Cond); len(ks) > 0 {
+							sub := true
+							for kc := range ks {
+								if kc != int64(reflect.Struct) && kc != int64(reflect.Ptr) {
+									sub = false
+								}
+							}
+							if sub {
+								kindOK = true
+							}
+						}
+					}
+					switch {
+					case !nonNil:
+						missing = "value != nil"
+					case !typeDiffers:
+						missing = "type of the value != declared type"
+					case !kindOK:
+						missing = "declared kind is Struct or Ptr"
+					}
+				}
+				r.Check(missing == "", rule, "stand-in path of "+shortName(cs.Caller)+" is entered only for a differing struct/pointer type", p.Pos(posOf(sizeIf)), "non-nil, type differs, declared kind Struct|Ptr known on every edge into the size test",
+					"the stand-in (size-checked retyping) path can be entered without '"+missing+"' being established: a nil value panics in Type(), an ordinary value for an interface- or scalar-typed result is sent through the size check and rejected, or a pointer stand-in skips the retyping")
+			}
 			r.Check(wrong == "", rule, "stand-in path of "+shortName(cs.Caller)+" is selected by the declared type", p.Pos(posOf(cs.Instr)), "kind tests on the way to the retyping are on a reflect.Type",
 				"the stand-in (retyping) path is selected by the kind of the supplied value (test at "+wrong+"): a struct value given for an interface-typed result is sent through the size check and rejected (or reinterpreted) instead of being boxed with its dynamic type")
 		}
@@ -951,4 +1016,77 @@ func kindTable(lk *ssa.Lookup) map[int64]bool {
 		}
 	}
 	return out
+}
+
+
+// c09Boxing: C09.R2 clauses — the arm of the converter that boxes a concrete value into an interface-typed cell
+// (reflect.New(declared type), Set, Elem) is entered for a non-nil value when the declared kind is Interface (so a value
+// for an interface result is never sent to the size comparison), and the value is Set into the cell before the cell's
+// content is handed on.
+func c09Boxing(p *Prog, r *Report, convs []*ssa.Function) {
+	n := 0
+	for _, f := range convs {
+		eachInstr(f, func(i ssa.Instruction) {
+			nw, ok := i.(*ssa.Call)
+			if !ok || calleeName(nw.Common()) != "reflect.New" {
+				return
+			}
+			n++
+			cons := "boxing cell in " + shortName(f)
+			// (1) entry condition
+			var nonNil, kindIface bool
+			for _, g := range guardsAt(nw.Block()) {
+				if bo, isB := g.Cond.(*ssa.BinOp); isB && (isNilConst(bo.X) || isNilConst(bo.Y)) {
+					if (bo.Op == token.NEQ && g.Pol) || (bo.Op == token.EQL && !g.Pol) {
+						nonNil = true
+					}
+				}
+				if kc, kv, isK := kindTest(g.Cond); isK && g.Pol && kc == int64(reflect.Interface) {
+					if kcall, isCall := resolveLocal(kv).(*ssa.Call); isCall && kcall.Call.IsInvoke() {
+						kindIface = true
+					}
+				}
+			}
+			r.Check(nonNil && kindIface, "C09.R2", cons+" is entered for a non-nil value of an interface-typed slot", p.Pos(posOf(nw)), "value != nil and declared kind == Interface known at the cell",
+				"the boxing arm is not entered exactly for a non-nil value whose declared type is an interface: a concrete value for an interface-typed result falls through to the size comparison and is rejected (or nil is boxed)")
+			// (2) the value is Set into the cell before the cell is read back
+			if nw.Referrers() == nil {
+				return
+			}
+			var sets, reads []ssa.Instruction
+			for _, ref := range *nw.Referrers() {
+				el, ok := ref.(*ssa.Call)
+				if !ok || calleeName(el.Common()) != "(reflect.Value).Elem" || el.Referrers() == nil {
+					continue
+				}
+				isSet := false
+				for _, r2 := range *el.Referrers() {
+					if sc, ok := r2.(*ssa.Call); ok && calleeName(sc.Common()) == "(reflect.Value).Set" && sc.Call.Args[0] == ssa.Value(el) {
+						sets = append(sets, sc)
+						isSet = true
+					}
+				}
+				if !isSet {
+					reads = append(reads, el)
+				}
+			}
+			okSet := len(sets) > 0 && len(reads) > 0
+			isSetI := func(j ssa.Instruction) bool {
+				for _, s := range sets {
+					if s == j {
+						return true
+					}
+				}
+				return false
+			}
+			for _, rd := range reads {
+				if !passedBefore(f, rd, isSetI, nil) {
+					okSet = false
+				}
+			}
+			r.Check(okSet, "C09.R2", cons+" holds the value before it is read back", p.Pos(posOf(nw)), "Set(value) passed before the cell's Elem() is handed on",
+				"the interface-typed cell is handed on without the value having been Set into it: the caller receives a nil interface instead of the stubbed value")
+		})
+	}
+	r.Stat("boxing_cells", n)
 }
